@@ -357,7 +357,11 @@ void MEDDLY::saturation_set_mtrel<EOP, ATYPE>
     std::cout << "#recfire  calls: " << recfire_calls << "\n";
 #endif
 
-    // if (1==VERSN) fillSplit(L, 0);
+    //
+    // Release the split relation, so the operation does not keep
+    // relation nodes alive after the caller released its own edges
+    //
+    if (1==VERSN) fillSplit(L, 0);
 }
 
 // ************************************************************************
